@@ -135,6 +135,40 @@ pub fn run(out: &mut Out, seed: u64, thorough: bool) {
         }
     }
 
+    // ------------- the size lattice again for senders whose label memory matters: the label is written in
+    // full, or replaced by the re-use marker (every length then counts no label bytes), or written in full
+    // because the maximum of consecutive re-uses is reached
+    let lat_priors: Vec<Prior> = if thorough { vec![Prior::SameLabel, Prior::MaxReached, Prior::Disabled, Prior::OtherLabel] } else { vec![Prior::SameLabel, Prior::MaxReached] };
+    for label in [LA6, LA3] {
+        let ll = label.len() as isize;
+        for prior in &lat_priors {
+            let mut plens: Vec<usize> = vec![0, 1, 3, 8, 26];
+            around(&mut plens, 4093 - ll, 1);
+            around(&mut plens, 4093, 1);
+            if thorough {
+                plens.extend([2, 4, 5, 6, 7, 9, 10, 100, 5000, 65527, 65530, 65533]);
+            }
+            for plen in dedup(plens) {
+                let pdu = Pdu::random(out, plen, &mut rng);
+                let mut blens: Vec<usize> = (0..=17).collect();
+                blens.extend([4096, 4097, 4098]);
+                for c in [plen as isize + 4, plen as isize + 4 + ll, plen as isize + 7, plen as isize + 7 + ll] {
+                    around(&mut blens, c, 1);
+                }
+                for blen in dedup(blens) {
+                    if blen > 70000 {
+                        continue;
+                    }
+                    out.begin("lattice", Obj::new().str("what", "encap_prior_lattice"));
+                    let mut enc = Encapsulator::new(DefaultCrc {});
+                    prepare(out, &mut enc, *prior, label, &small);
+                    ev_encap(out, &mut enc, &pdu, 11, label, 0x0800, blen, None, None);
+                    ev_encap(out, &mut enc, &small, 11, label, 0x0800, 64, None, None);
+                }
+            }
+        }
+    }
+
     // ------------------------------------------------------------ encap_frag
     let plens: Vec<usize> = if thorough {
         vec![0, 1, 2, 5, 26, 100, 4000, 4090, 4096, 5000, 65526, 65535, 65536, 70000]
